@@ -3,7 +3,12 @@
 import json, os, re, sys
 root = os.path.join(os.path.dirname(os.path.abspath(__file__)), "..", "seeded")
 rows = []
-for d in sorted(os.listdir(root), key=lambda x: (x[:3], "r2" in x, x)):
+def order(x):
+    m = re.match(r"(C\d\d)-(?:r(\d))?m(\d)", x)
+    return (m.group(1), int(m.group(2) or 1), int(m.group(3))) if m else (x, 0, 0)
+
+
+for d in sorted(os.listdir(root), key=order):
     mp = os.path.join(root, d, "meta.json")
     if not os.path.exists(mp):
         continue
